@@ -25,7 +25,16 @@ impl WorkspaceLock {
             .acquire_owned()
             .await
             .expect("workspace lock semaphore closed");
+        #[cfg(rip_verif)]
+        rip_kernel::verif::point("ws.acquired", || serde_json::json!({}));
         WorkspaceGuard { _permit: permit }
+    }
+}
+
+#[cfg(rip_verif)]
+impl Drop for WorkspaceGuard {
+    fn drop(&mut self) {
+        rip_kernel::verif::point("ws.releasing", || serde_json::json!({}));
     }
 }
 
